@@ -373,8 +373,20 @@ def create_scaling_dispatch(u):
     problem.fields["num_vars"] = n
     made = []
     A = u.it.abstract
+    built = {}
+
+    def mk_ctor(c_):
+        def ctor_contract(it, *a, **kw):
+            # a Scaling object with arbitrary integer weights (what the constructor computes is proved elsewhere)
+            obj = u.obj(SC + "Scaling", var_weights=u.vec(u.path.fresh_name("vw_" + c_), n, kind="int"), cons_weights=u.vec(u.path.fresh_name("cw_" + c_), m, kind="int"), obj_weight=0)
+            built[c_] = obj
+            made.append((c_, a))
+            return obj
+
+        return ctor_contract
+
     for ctor in ("from_nominal_values", "from_grad_jac", "from_equilibrated_kkt"):
-        A[SC + "Scaling." + ctor] = (lambda c_: lambda it, *a, **kw: (made.append((c_, a)), Opaque("scaling:" + c_))[1])(ctor)
+        A[SC + "Scaling." + ctor] = mk_ctor(ctor)
     have_x = u.path.choose("primal reference point given")
     have_y = u.path.choose("dual reference point given")
     xr = u.vec("x_ref", n, region="USER") if have_x else None
@@ -397,7 +409,7 @@ def create_scaling_dispatch(u):
         ok = u.ensure(len(made) == 1 and made[0][0] == want, f"{nm}=>exactly_one_scaling_built_by_{want}", desc=f"built: {[c for c, _ in made]}")
         if ok:
             args = made[0][1]
-            u.ensure(isinstance(val, Opaque) and val.tag == "scaling:" + want, f"{nm}=>that_scaling_is_returned")
+            u.ensure(val is built.get(want), f"{nm}=>that_scaling_is_returned", desc="create_scaling returns the very object the scaling constructor built (its weights are not post-processed)")
             at_ref = all(c[1] is xr for c in up.calls)
             u.ensure(at_ref, f"{nm}=>callbacks_evaluated_at_the_reference_point_only")
             if nm == "Nominal":
